@@ -285,3 +285,203 @@ theorem decodeWordsAux_bounded (M : Nat) : ∀ (fuel cur : Nat) (cw ws : List Na
             omega
 
 end Dulwich.Ewah
+
+namespace Dulwich.Midx
+open Dulwich
+
+theorem sorted_lt {oids : List Nat} (hs : oids.Pairwise (· < ·)) {i j : Nat} {a b : Nat}
+    (hi : oids[i]? = some a) (hj : oids[j]? = some b) (hij : i < j) : a < b := by
+  have h := List.pairwise_iff_getElem.mp hs
+  obtain ⟨hi', rfl⟩ := List.getElem?_eq_some_iff.mp hi
+  obtain ⟨hj', rfl⟩ := List.getElem?_eq_some_iff.mp hj
+  exact h i j hi' hj' hij
+
+theorem bisect_correct (oids : List Nat) (sha : Nat) (hs : oids.Pairwise (· < ·)) :
+    ∀ (fuel lo hi : Nat), hi ≤ oids.length → hi - lo < fuel →
+      (∃ j, lo ≤ j ∧ j < hi ∧ oids[j]? = some sha ∧ bisect oids sha fuel lo hi = .ok (some j)) ∨
+      ((∀ j, lo ≤ j → j < hi → oids[j]? ≠ some sha) ∧ bisect oids sha fuel lo hi = .ok none) := by
+  intro fuel
+  induction fuel with
+  | zero => intro lo hi _ h; omega
+  | succ fuel ih =>
+    intro lo hi hlen hf
+    rw [bisect]
+    by_cases hlt : lo < hi
+    · rw [if_pos hlt]
+      have hmid : (lo + hi) / 2 < oids.length := by omega
+      obtain ⟨m, hm⟩ : ∃ m, oids[(lo + hi) / 2]? = some m := ⟨oids[(lo + hi) / 2], by simp [hmid]⟩
+      rw [hm]
+      simp only
+      by_cases heq : m = sha
+      · rw [if_pos heq]
+        exact Or.inl ⟨(lo + hi) / 2, by omega, by omega, by rw [hm, heq], rfl⟩
+      · rw [if_neg heq]
+        by_cases hlt2 : m < sha
+        · rw [if_pos hlt2]
+          rcases ih ((lo + hi) / 2 + 1) hi hlen (by omega) with ⟨j, h1, h2, h3, h4⟩ | ⟨h1, h2⟩
+          · exact Or.inl ⟨j, by omega, h2, h3, h4⟩
+          · refine Or.inr ⟨?_, h2⟩
+            intro j hj1 hj2 hj
+            by_cases hjm : j ≤ (lo + hi) / 2
+            · by_cases hje : j = (lo + hi) / 2
+              · subst hje; rw [hm] at hj; cases hj; exact heq rfl
+              · have := sorted_lt hs hj hm (by omega); omega
+            · exact h1 j (by omega) hj2 hj
+        · rw [if_neg hlt2]
+          rcases ih lo ((lo + hi) / 2) (by omega) (by omega) with ⟨j, h1, h2, h3, h4⟩ | ⟨h1, h2⟩
+          · exact Or.inl ⟨j, h1, by omega, h3, h4⟩
+          · refine Or.inr ⟨?_, h2⟩
+            intro j hj1 hj2 hj
+            by_cases hjm : j < (lo + hi) / 2
+            · exact h1 j hj1 hjm hj
+            · by_cases hje : j = (lo + hi) / 2
+              · subst hje; rw [hm] at hj; cases hj; exact heq rfl
+              · have := sorted_lt hs hm hj (by omega); omega
+    · rw [if_neg hlt]
+      exact Or.inr ⟨fun j h1 h2 => by omega, rfl⟩
+
+/-! fan-out windows of the writer -/
+
+def countLe (b : Nat) (l : List Nat) : Nat := (l.filter (· ≤ b)).length
+
+theorem countLe_gt {b : Nat} : ∀ {l : List Nat} (_ : l.Pairwise (· ≤ ·)) {j x : Nat},
+    l[j]? = some x → x ≤ b → j < countLe b l := by
+  intro l
+  induction l with
+  | nil => intro _ j x h; simp at h
+  | cons y ys ih =>
+    intro hs j x hj hx
+    have hs' := List.pairwise_cons.mp hs
+    cases j with
+    | zero =>
+      simp at hj; subst hj
+      simp [countLe, hx]
+    | succ j =>
+      simp at hj
+      have hy : y ≤ x := hs'.1 x (List.mem_of_getElem? hj)
+      have := ih hs'.2 hj hx
+      have hyb : y ≤ b := by omega
+      simp only [countLe, List.filter_cons, decide_eq_true_eq, hyb, if_true, List.length_cons] at this ⊢
+      omega
+
+theorem countLe_le {b : Nat} : ∀ {l : List Nat} (_ : l.Pairwise (· ≤ ·)) {j x : Nat},
+    l[j]? = some x → b < x → countLe b l ≤ j := by
+  intro l
+  induction l with
+  | nil => intro _ j x h; simp at h
+  | cons y ys ih =>
+    intro hs j x hj hx
+    have hs' := List.pairwise_cons.mp hs
+    cases j with
+    | zero =>
+      simp at hj; subst hj
+      have : ∀ z ∈ y :: ys, ¬ (z ≤ b) := by
+        intro z hz
+        cases hz with
+        | head => omega
+        | tail _ hz => have := hs'.1 z hz; omega
+      simp only [countLe, Nat.le_zero, List.length_eq_zero_iff, List.filter_eq_nil_iff, decide_eq_true_eq]
+      exact this
+    | succ j =>
+      simp at hj
+      have := ih hs'.2 hj hx
+      simp only [countLe, List.filter_cons] at this ⊢
+      split
+      · simp only [List.length_cons]; omega
+      · omega
+
+
+theorem writeFanout_getD (fbs : List Nat) (b : Nat) (hb : b < 256) :
+    (writeFanout fbs).getD b 0 = countLe b fbs := by
+  unfold writeFanout countLe
+  simp [List.getD_eq_getElem?_getD, List.getElem?_map, List.getElem?_range hb]
+
+theorem countLe_le_length (b : Nat) (l : List Nat) : countLe b l ≤ l.length := by
+  unfold countLe; exact List.length_filter_le _ _
+
+/-- lookup through the writer's fan-out finds exactly the ids that were written -/
+theorem lookup_writeFanout (oids : List Nat) (fb : Nat → Nat) (hs : oids.Pairwise (· < ·))
+    (hmono : ∀ a b, a ≤ b → fb a ≤ fb b) (h256 : ∀ a, fb a < 256) (sha : Nat) :
+    (∃ j, oids[j]? = some sha ∧ lookup (writeFanout (oids.map fb)) oids (fb sha) sha = .ok (some j)) ∨
+    (sha ∉ oids ∧ lookup (writeFanout (oids.map fb)) oids (fb sha) sha = .ok none) := by
+  have hsorted : (oids.map fb).Pairwise (· ≤ ·) := by
+    rw [List.pairwise_map]
+    exact hs.imp (fun h => hmono _ _ (Nat.le_of_lt h))
+  unfold lookup
+  simp only
+  rw [writeFanout_getD _ _ (h256 sha)]
+  have hhi : countLe (fb sha) (oids.map fb) ≤ oids.length := by
+    have := countLe_le_length (fb sha) (oids.map fb); simpa using this
+  rcases bisect_correct oids sha hs (countLe (fb sha) (oids.map fb) + 1)
+      (if fb sha = 0 then 0 else (writeFanout (oids.map fb)).getD (fb sha - 1) 0)
+      (countLe (fb sha) (oids.map fb)) hhi (by omega) with ⟨j, _, _, h3, h4⟩ | ⟨h1, h2⟩
+  · exact Or.inl ⟨j, h3, h4⟩
+  · refine Or.inr ⟨?_, h2⟩
+    intro hmem
+    obtain ⟨j, hj⟩ := List.getElem?_of_mem hmem
+    have hfj : (oids.map fb)[j]? = some (fb sha) := by simp [List.getElem?_map, hj]
+    have hup := countLe_gt hsorted hfj (Nat.le_refl _)
+    refine h1 j ?_ hup hj
+    by_cases h0 : fb sha = 0
+    · simp [h0]
+    · rw [if_neg h0, writeFanout_getD _ _ (by have := h256 sha; omega)]
+      exact countLe_le hsorted hfj (by omega)
+
+/-! OOFF / LOFF spill -/
+
+theorem encodeOffsets_length : ∀ (os : List Nat) (n : Nat), (encodeOffsets os n).1.length = os.length := by
+  intro os
+  induction os with
+  | nil => intro n; simp [encodeOffsets]
+  | cons o os ih =>
+    intro n
+    unfold encodeOffsets
+    split <;> simp [ih]
+
+/-- reading position `i` of the written OOFF words through the written LOFF table gives back offset `i`
+(`pre` = large offsets spilled by earlier entries) -/
+theorem decode_encodeOffsets : ∀ (os : List Nat) (pre : List Nat) (i : Nat) (o : Nat),
+    os[i]? = some o → pre.length + os.length < 2 ^ 31 →
+    ∃ w, (encodeOffsets os pre.length).1[i]? = some w ∧
+      decodeOffset w (some (pre ++ (encodeOffsets os pre.length).2)) = .ok o := by
+  intro os
+  induction os with
+  | nil => intro pre i o h; simp at h
+  | cons x xs ih =>
+    intro pre i o hi hlen
+    have eF : Gen.Accel.midxLargeFlag = 2147483648 := rfl
+    have eM : Gen.Accel.midxLargeMask = 2147483647 := rfl
+    simp only [List.length_cons] at hlen
+    cases i with
+    | zero =>
+      simp at hi; subst hi
+      unfold encodeOffsets
+      by_cases hl : x ≥ 2 ^ 31
+      · rw [if_pos hl]
+        refine ⟨Gen.Accel.midxLargeFlag + pre.length, by simp, ?_⟩
+        unfold decodeOffset
+        rw [eF, eM]
+        have h1 : (2147483648 + pre.length) / 2147483648 % 2 = 1 := by omega
+        have h2 : (2147483648 + pre.length) % (2147483647 + 1) = pre.length := by omega
+        rw [if_pos h1, h2]
+        simp
+      · rw [if_neg hl]
+        refine ⟨x, by simp, ?_⟩
+        unfold decodeOffset
+        rw [eF]
+        have h1 : ¬ (x / 2147483648 % 2 = 1) := by omega
+        rw [if_neg h1]
+    | succ i =>
+      simp at hi
+      unfold encodeOffsets
+      by_cases hl : x ≥ 2 ^ 31
+      · rw [if_pos hl]
+        obtain ⟨w, hw1, hw2⟩ := ih (pre ++ [x]) i o hi (by simp; omega)
+        simp only [List.length_append, List.length_cons, List.length_nil, Nat.zero_add] at hw1 hw2
+        refine ⟨w, by simpa using hw1, ?_⟩
+        simpa [List.append_assoc] using hw2
+      · rw [if_neg hl]
+        obtain ⟨w, hw1, hw2⟩ := ih pre i o hi (by omega)
+        exact ⟨w, by simpa using hw1, hw2⟩
+
+end Dulwich.Midx
